@@ -138,4 +138,31 @@ theorem handle_bank_out (s s' : Sys) (m : Msg) (ms : List Msg) (hx : s.handle m 
     simp only [if_true] at b
     rw [hc]; omega
 
+/-- funds attached to a call arrive in full on the callee's account -/
+theorem moveFunds_bank_in (src dst : Addr) (hne : src ≠ dst) : ∀ (l : List (Denom × Nat)) (s s' : Sys),
+    s.moveFunds src dst l = .ok s' → ∀ (d : Denom), s'.chain.bank dst d ≥ s.chain.bank dst d + fundsOf d l := by
+  intro l
+  induction l with
+  | nil => intro s s' hx d; simp only [Sys.moveFunds] at hx; cases hx; simp [fundsOf]
+  | cons c rest ih =>
+    intro s s' hx d
+    obtain ⟨dn, amt⟩ := c
+    simp only [Sys.moveFunds] at hx
+    split at hx
+    · cases hx
+    · rename_i s1 h1
+      have b2 := ih s1 s' hx d
+      rw [fundsOf_cons]
+      have b1 : s1.chain.bank dst d ≥ s.chain.bank dst d + (if dn = d then amt else 0) := by
+        unfold Sys.bankMove at h1
+        exc_split at h1
+        simp only [Sys.setBank, upd]
+        have h2 : ¬ dst = src := fun h => hne h.symm
+        by_cases h3 : d = dn
+        · subst h3; simp [h2]
+        · have : ¬ dn = d := fun h => h3 h.symm
+          simp [h2, h3, this]
+      simp only [] at b1 ⊢
+      omega
+
 end Krp
